@@ -78,7 +78,7 @@ def handle (fields : List String) : String :=
       let rAp := newRouteChains appObs cfg.mws ownA hPanic
       let rB := newRouteChains appObs cfg.mws ownB hOk
       let rU := newRouteChains appObs cfg.mws ownU hOk
-      let m := [showObs rA.hall, showObs rAp.hall, showObs rA.hbase, showObs rA.hself, special .noRoute, special .noMethod,
+      let m := [special .noRoute, showObs rA.hall, showObs rAp.hall, showObs rA.hbase, showObs rA.hself, special .noRoute, special .noMethod,
                 special .redirect, optionsItem, showObs rA.hall, showObs rB.hall, showObs rU.hall, showObs rU.hself, showObs rB.hall,
                 -- routes reached by ignoring a trailing slash: the full chain (normal and panicking handler)
                 showObs rA.hall, showObs rAp.hall, showObs rB.hall]
@@ -89,7 +89,7 @@ def handle (fields : List String) : String :=
         showTrace (Spec.MW.chain (Spec.MW.selected .route gm) (Spec.MW.chain own [.handler 200]))
       let sSelf (own : List Nat) : String := showTrace (Spec.MW.chain own [.handler 200])
       let autoOpt := gopts.foldl (fun acc o => match o with | .defaults => true | .autoOptions b => b | _ => acc) false
-      let s := [sRoute ownA, "skip", "h200", sSelf ownA, sSpecial .noRoute, sSpecial .noMethod, sSpecial .redirect,
+      let s := [sSpecial .noRoute, sRoute ownA, "skip", "h200", sSelf ownA, sSpecial .noRoute, sSpecial .noMethod, sSpecial .redirect,
                 (if autoOpt then sSpecial .options else sSpecial .noMethod), sRoute ownA, sRoute ownB, sRoute ownU, sSelf ownU, sRoute ownB,
                 sRoute ownA, "skip", sRoute ownB]
       let hasD := gopts.contains .defaults
